@@ -14,6 +14,8 @@ SHAPES = {
     "diamond": dict(mods=[("A", [], ["o"]), ("B", ["i"], ["o"]), ("C", ["i"], ["o"]), ("D", ["l", "r"], [])],
                     wires=[("A", "o", "B", "i"), ("A", "o", "C", "i"), ("B", "o", "D", "l"), ("C", "o", "D", "r")], ext=[], nohandler=[]),
     "fan_in": dict(mods=[("A", [], ["o"]), ("B", [], ["o"]), ("C", ["i"], [])], wires=[("A", "o", "C", "i"), ("B", "o", "C", "i")], ext=[], nohandler=[]),
+    "fan_in_same_module": dict(mods=[("A", [], ["o", "p"]), ("C", ["i"], [])], wires=[("A", "o", "C", "i"), ("A", "p", "C", "i")], ext=[], nohandler=[]),
+    "dup_wire": dict(mods=[("A", [], ["o"]), ("C", ["i"], [])], wires=[("A", "o", "C", "i"), ("A", "o", "C", "i")], ext=[], nohandler=[]),
     "cycle2": dict(mods=[("A", ["i"], ["o"]), ("B", ["i"], ["o"])], wires=[("A", "o", "B", "i"), ("B", "o", "A", "i")], ext=[], nohandler=[]),
     "self_loop": dict(mods=[("A", ["i"], ["o"])], wires=[("A", "o", "A", "i")], ext=[], nohandler=[]),
     "missing_source": dict(mods=[("A", [], ["o"]), ("B", ["i", "j"], [])], wires=[("A", "o", "B", "i")], ext=[], nohandler=[]),
@@ -203,7 +205,7 @@ META = {
         "technique": "symbolic execution of wagent.py/wiring_runtime.py with symbolic enum labels on every port and handler output; z3 per path",
     },
     "files": ["operon_ai/core/wagent.py", "operon_ai/core/wiring_runtime.py"],
-    "bounds": {"quick": "11 shapes with <=3 modules; all labels symbolic; 2 capabilities per module", "thorough": "13 shapes incl. diamond and a 3-module/4-port shape"},
+    "bounds": {"quick": "13 shapes with <=3 modules (incl. two wires from one module into the same port, and the same wire twice); all labels symbolic; 2 capabilities per module", "thorough": "13 shapes incl. diamond and a 3-module/4-port shape"},
     "outside": ["diagrams outside the catalogue / more than 4 modules", "wires appended to diagram.wires without connect()"],
     "float_argument": "none",
     "assumptions": ["handlers are stubs choosing raw/labelled/arbitrary outputs per port"],
